@@ -182,6 +182,16 @@ def toggles(m, meta):
         term_image.enable_queries()
         if inval["n"] == n0:
             problems.append("enable_queries() after disable_queries() did not invalidate the cached terminal answers")
+        for cached_cell in ((80, 30, 10, 20), (80, 30, 0, 0)):
+            term_image.disable_queries()
+            U._cell_size_cache[:] = cached_cell
+            term_image.enable_queries()
+            if tuple(U._cell_size_cache) != (0, 0, 0, 0):
+                problems.append(f"enable_queries() after disable_queries() kept the cell size cached while queries were disabled: {tuple(U._cell_size_cache)}")
+            U._cell_size_cache[:] = cached_cell
+            term_image.enable_queries()
+            if tuple(U._cell_size_cache) != cached_cell:
+                problems.append("enable_queries() while queries were already enabled reset the cell-size cache")
         for enable, disable in ((term_image.enable_win_size_swap, term_image.disable_win_size_swap),):
             disable()
             U._cell_size_cache[:] = (80, 30, 10, 20)
